@@ -14,6 +14,7 @@
 From Coq Require Import List Arith NArith Bool Lia Permutation.
 Import ListNotations.
 Require Import S1 VParse Py VMeaning SpecModel SpecParse Prefix SpecContains SortPerm SetModel SetsModel SetsBridge SetsFs SetsParse SetsLaws SetsLink SetsC10 SetsReparse SpecOps VKeyEq.
+Require Import Sorted SetsOps SetsEqual SetsC05More SetsSupply.
 Open Scope N_scope.
 
 (* 0. the premise wf_member / wf_set holds for every specifier / set the constructors accept *)
@@ -181,6 +182,135 @@ Theorem C05_str_reparse_refuted_D19 :
   SpecifierSet (set_str (SpecifierSet_of [mk_member d19_member] None)) None = None.
 Proof. split; [exact d19_is_a_specifier | exact str_reparse_refuted_D19]. Qed.
 Print Assumptions C05_str_reparse_refuted_D19.
+
+(* ================================================================ second round (audit of C05) *)
+
+(* 1'. the conjunction for EVERY way of enabling pre-releases: the call argument, else the set's override, else a member's own default
+       (truthy (eff_arg S arg) is the effective setting of the call; C05_enabled_iff spells out the three ways) *)
+Theorem C05_conjunction_enabled S arg item c : wf_set S -> Version item = Some c -> truthy (eff_arg S arg) = true ->
+  set_contains S arg None item = Ans (forallb (fun m => accepts m item) (ms S)).
+Proof. exact (set_conjunction_enabled S arg item c). Qed.
+Print Assumptions C05_conjunction_enabled.
+Theorem C05_enabled_iff S arg : truthy (eff_arg S arg) = true <->
+  arg = Some true \/ (arg = None /\ ov S = Some true) \/ (arg = None /\ ov S = None /\ existsb m_pre (ms S) = true).
+Proof. exact (enabled_iff S arg). Qed.
+Print Assumptions C05_enabled_iff.
+Theorem C05_conjunction_enabled_text s p S arg item c : SpecifierSet s p = Some S -> Version item = Some c -> truthy (eff_arg S arg) = true ->
+  set_contains S arg None item = Ans (forallb (fun m => accepts m item) (ms S)).
+Proof. intros H. exact (set_conjunction_enabled S arg item c (SpecifierSet_wf s p S H)). Qed.
+Print Assumptions C05_conjunction_enabled_text.
+Theorem C05_conjunction_enabled_installed S arg item c : wf_set S -> Version item = Some c -> truthy (eff_arg S arg) = true ->
+  set_contains S arg (Some true) item = Ans (forallb (fun m => accepts m (if is_prerelease c then base_str c else item)) (ms S)).
+Proof. exact (set_conjunction_enabled_installed S arg item c). Qed.
+Print Assumptions C05_conjunction_enabled_installed.
+
+(* 4'. order, duplication, spacing of the clauses of a text are irrelevant for ANY call argument (None included): the two sets are ==
+       and have the same contains / filter / prereleases.  (Same override p on both: with arg None the override is consulted.) *)
+Theorem C05_text_order_dup_irrelevant_any_arg s s' p S :
+  SpecifierSet s p = Some S -> (forall t, In t (clauses s) <-> In t (clauses s')) ->
+  exists S', SpecifierSet s' p = Some S' /\ set_eqb S S' = true /\
+    (forall arg inst item, set_contains S arg inst item = set_contains S' arg inst item) /\
+    (forall arg texts, set_filter S arg texts = set_filter S' arg texts) /\ set_pre S = set_pre S'.
+Proof. exact (text_order_dup_irrelevant_any_arg s s' p S). Qed.
+Print Assumptions C05_text_order_dup_irrelevant_any_arg.
+(* the same for sets built from Specifier objects supplied in any order / multiplicity, provided == objects carry the same override
+   (C05_supply_order_needs_coherent shows the premise is needed) *)
+Theorem C05_objects_order_dup_irrelevant_any_arg l l' p : (forall m, In m l <-> In m l') -> Forall built l -> coherent l ->
+  set_pre (SpecifierSet_of l p) = set_pre (SpecifierSet_of l' p) /\
+  (forall arg inst item, set_contains (SpecifierSet_of l p) arg inst item = set_contains (SpecifierSet_of l' p) arg inst item) /\
+  (forall arg texts, set_filter (SpecifierSet_of l p) arg texts = set_filter (SpecifierSet_of l' p) arg texts).
+Proof. exact (supply_order_behaviour l l' p). Qed.
+Print Assumptions C05_objects_order_dup_irrelevant_any_arg.
+Theorem C05_supply_order_needs_coherent : supply_order_check = true.
+Proof. exact supply_order_refuted_without_coherent. Qed.
+Print Assumptions C05_supply_order_needs_coherent.
+
+(* 5'. spacing INSIDE a clause: an accepted clause text is its canonical string padded with white space in three places, the canonical
+       string is the same Specifier, and a set text rewritten clause by clause into canonical spacing builds literally the same set *)
+Theorem C05_clause_spacing s sp : Specifier s = Some sp ->
+  exists wl wm wr, all_ws wl = true /\ all_ws wm = true /\ all_ws wr = true /\
+    s = wl ++ op_txt (sp_op sp) ++ wm ++ sp_text sp ++ wr /\ Specifier (op_txt (sp_op sp) ++ sp_text sp) = Some sp.
+Proof. exact (Specifier_spacing s sp). Qed.
+Print Assumptions C05_clause_spacing.
+Theorem C05_set_clause_spacing_irrelevant s p S : SpecifierSet s p = Some S ->
+  exists l, map_opt Specifier (clauses s) = Some l /\ SpecifierSet (join_with [44] (map spec_str l)) p = Some S.
+Proof. exact (set_clause_spacing_irrelevant s p S). Qed.
+Print Assumptions C05_set_clause_spacing_irrelevant.
+
+(* 6'. a & b on FINAL releases: exactly what both match, whatever the argument (None included) on each call; and the restriction is
+       needed: without an argument ">=1.0a1" & "<2" accepts 1.5a1, which "<2" alone rejects *)
+Theorem C05_and_is_both_final A B C arg1 arg2 arg3 inst item c : set_and A B = Some C -> wf_set A -> wf_set B -> respects (ms A ++ ms B) ->
+  Version item = Some c -> is_prerelease c = false ->
+  exists x y, set_contains A arg1 inst item = Ans x /\ set_contains B arg2 inst item = Ans y /\ set_contains C arg3 inst item = Ans (x && y).
+Proof. exact (and_is_both_final A B C arg1 arg2 arg3 inst item c). Qed.
+Print Assumptions C05_and_is_both_final.
+Theorem C05_and_is_both_final_text a b pa pb A B C arg1 arg2 arg3 inst item c : SpecifierSet a pa = Some A -> SpecifierSet b pb = Some B ->
+  set_and A B = Some C -> Version item = Some c -> is_prerelease c = false ->
+  exists x y, set_contains A arg1 inst item = Ans x /\ set_contains B arg2 inst item = Ans y /\ set_contains C arg3 inst item = Ans (x && y).
+Proof. exact (and_is_both_final_text a b pa pb A B C arg1 arg2 arg3 inst item c). Qed.
+Print Assumptions C05_and_is_both_final_text.
+Theorem C05_and_is_both_refuted_prerelease_no_argument : and_prerelease_counterexample = true.
+Proof. exact and_is_both_refuted_for_prerelease_without_argument. Qed.
+Print Assumptions C05_and_is_both_refuted_prerelease_no_argument.
+(* a & b and b & a behave alike (C05_and_comm gives ==) when == members of the operands carry the same override *)
+Theorem C05_and_comm_behaviour A B C C' : set_and A B = Some C -> set_and B A = Some C' -> fs_ok (ms A) -> fs_ok (ms B) ->
+  all_built A -> all_built B -> coherent (ms A ++ ms B) ->
+  set_pre C = set_pre C' /\ (forall arg inst item, set_contains C arg inst item = set_contains C' arg inst item) /\
+  (forall arg texts, set_filter C arg texts = set_filter C' arg texts).
+Proof. exact (and_comm_behaviour A B C C'). Qed.
+Print Assumptions C05_and_comm_behaviour.
+
+(* 7'. what & preserves: the result of & is again a frozenset of constructor-built members without own overrides, on which no operator
+       raises - so C05_and_comm's premise, and the premises under which == sets behave alike (C10), hold for any nesting of & *)
+Theorem C05_and_invariants A B C : set_and A B = Some C ->
+  (fs_ok (ms A) -> fs_ok (ms B) -> fs_ok (ms C)) /\ (wf_set A -> wf_set B -> wf_set C) /\
+  (all_built A -> all_built B -> all_built C) /\ (plain A -> plain B -> plain C).
+Proof. exact (and_invariants A B C). Qed.
+Print Assumptions C05_and_invariants.
+
+(* 9'. a & "text" (set_and_str is what RunSets runs for the &s command): it is a & SpecifierSet("text"), keeps a's override, never raises
+       ValueError, raises InvalidSpecifier exactly when the text does not parse, and is literally SpecifierSet(a + "," + text, a's override) *)
+Theorem C05_and_str_is_and A t B : SpecifierSet t None = Some B ->
+  exists C, set_and_str A t = AndOk C /\ set_and A B = Some C /\ ov C = ov A /\ ms C = fs_union (ms A) (ms B).
+Proof. exact (and_str_is_and A t B). Qed.
+Print Assumptions C05_and_str_is_and.
+Theorem C05_and_str_invalid_iff A t : set_and_str A t = AndInvalid <-> SpecifierSet t None = None.
+Proof. exact (and_str_invalid_iff A t). Qed.
+Print Assumptions C05_and_str_invalid_iff.
+Theorem C05_and_str_never_conflicts A t : set_and_str A t <> AndConflict.
+Proof. exact (and_str_never_conflicts A t). Qed.
+Print Assumptions C05_and_str_never_conflicts.
+Theorem C05_and_str_is_concat a pa A t : SpecifierSet a pa = Some A -> SpecifierSet t None <> None ->
+  exists C, SpecifierSet (a ++ 44 :: t) pa = Some C /\ set_and_str A t = AndOk C.
+Proof. exact (and_str_is_concat a pa A t). Qed.
+Print Assumptions C05_and_str_is_concat.
+(* set == "text" (set_eq_str, the eqs command): comparison with the parsed text; a set equals its own text and its own str() *)
+Theorem C05_eq_str_own s p S : SpecifierSet s p = Some S -> set_eq_str S s = Some true /\ set_eq_str S (set_str S) = Some true.
+Proof. intros H. split; [exact (eq_str_of_own_text s p S H) | exact (eq_str_of_own_str s p S H)]. Qed.
+Print Assumptions C05_eq_str_own.
+
+(* 10'. str() is the comma-joined list of the member strings, each once, SORTED in code-point order ... *)
+Theorem C05_str_sorted S : exists strs, set_str S = join_with [44] strs /\
+  Permutation strs (map (fun m => spec_str (m_sp m)) (ms S)) /\ Sorted (cle str_cmp) strs.
+Proof. exact (set_str_sorted S). Qed.
+Print Assumptions C05_str_sorted.
+(* ... and does not depend on the order / multiplicity in which the clauses were SUPPLIED, for lists without two spellings of one
+   clause (`literal`); with two spellings it does: D33, known finding filed under C20 *)
+Theorem C05_str_supply_order l l' p p' : (forall m, In m l <-> In m l') -> literal l ->
+  set_str (SpecifierSet_of l p) = set_str (SpecifierSet_of l' p').
+Proof. exact (set_str_supply_dup l l' p p'). Qed.
+Print Assumptions C05_str_supply_order.
+Theorem C05_str_supply_order_perm l l' p : Permutation l l' -> literal l -> set_str (SpecifierSet_of l p) = set_str (SpecifierSet_of l' p).
+Proof. exact (set_str_supply_order l l' p). Qed.
+Print Assumptions C05_str_supply_order_perm.
+Theorem C05_str_text_supply_order s s' p p' S l : SpecifierSet s p = Some S -> map_opt Specifier (clauses s) = Some l ->
+  literal (map mk_member l) -> (forall t, In t (clauses s) <-> In t (clauses s')) ->
+  exists S', SpecifierSet s' p' = Some S' /\ set_str S = set_str S'.
+Proof. exact (set_str_text_supply_order s s' p p' S l). Qed.
+Print Assumptions C05_str_text_supply_order.
+Theorem C05_str_supply_order_refuted_D33 : d33_check = true.
+Proof. exact set_str_supply_order_refuted_D33. Qed.
+Print Assumptions C05_str_supply_order_refuted_D33.
 
 (* Every clause of C05 is proved for the model; what remains outside the theorems is the tie between model and code (correspondence). *)
 
